@@ -49,25 +49,9 @@ class RuleTask:
         return "rules." + self.name + (("[" + self.variant + "]") if self.variant else "")
 
 
-def unit_ok(world):
-    def f(u):
-        return isinstance(u, (SEnum, EnumMember)) or (isinstance(u, dict) and "enum" in u)
-    return f
-
-
 def wf_value(world, o):
-    """wf of any resolution value"""
-    pt = world.pod_table()
-    k = kind(o)
-    if k == "Time":
-        return WF.wf_time(o, pt)
-    if k == "Interval":
-        return WF.wf_interval(o, pt)
-    if k == "Duration":
-        return WF.wf_duration(o, unit_ok(world))
-    if k == "RegexMatch":
-        return True
-    return False
+    from contracts.generic import wf_value as g
+    return g(world.pod_table(), o)
 
 
 def discover(world):
@@ -180,23 +164,9 @@ def compute_pred_formula(world, task):
     task.pred_formula = merged_formula(world, setup, fn)
 
 
-class Env:
-    def __init__(self, world, it):
-        self.pod_table = world.pod_table()
-        self.ghost = it.ghost if it is not None else {}
-
-
 def rule_ensures(world, task):
-    from contracts.rule_specs import SPECS
-    sp = SPECS.get(task.name)
+    from contracts.generic import rule_clauses
 
     def ensures(it, args, res):
-        out = [("result-kind", ["C01", "C02"], kind(res) in ("None", "Time", "Interval", "Duration")),
-               ("wf-result", ["C02", "C01"], True if res is None else wf_value(world, res))]
-        if kind(res) == "Interval":
-            out.append(("aux-invariant-clock-range", ["C07"], WF.aux_interval(res)))
-        if sp is not None:
-            for name, props, goal in sp(Env(world, it), *(list(args) + [res])):
-                out.append((name, props, goal))
-        return out
+        return rule_clauses(task.name, world.pod_table(), it.ghost, args[0], args[1:], res)
     return ensures
